@@ -182,6 +182,11 @@ Definition process_difop (bl : build) (v : drv) (th : throttles) (now : Z) (b : 
     let '(t, e) := limit_call th now ERR_WRONGDIFOPID in (v, t, e)
   else (with_dec v (decode_difop d (b_difop_parse bl) (v_dec v) b), th, []).
 
+Definition ev_is_msop_b (b stale : bytes) : bool :=
+  let b0 := match b with x :: _ => x | [] => u8 stale 0 end in
+  let b1 := match b with _ :: y :: _ => y | _ => u8 stale 1 end in
+  (b0 =? 85) && (b1 =? 170).
+
 (* internalProcessPacket: dispatch on the first two bytes of the buffer.  `stale` = the two leading
    bytes the pooled buffer held before this packet was copied in (they decide the dispatch of 0-
    and 1-byte packets, see finding D21) *)
